@@ -119,6 +119,14 @@ func (w *W) Expired() bool {
 	return w.expired
 }
 
+// ExpiredNow looks at the clock on every call (phases whose single step is slow: schedule exploration, histories).
+func (w *W) ExpiredNow() bool {
+	if !w.expired && time.Now().After(w.deadline) {
+		w.expired = true
+	}
+	return w.expired
+}
+
 // Remaining is the time left in the phase budget.
 func (w *W) Remaining() time.Duration { return time.Until(w.deadline) }
 
